@@ -16,6 +16,7 @@ import PrqlModel.Drv.Lit
 import PrqlModel.Drv.Names
 import PrqlModel.Drv.Text
 import PrqlModel.Drv.Order
+import PrqlModel.Drv.Expr
 namespace Drv
 
 def handlers : List (List String → Option String) := [
@@ -30,7 +31,8 @@ def handlers : List (List String → Option String) := [
   Drv.Lit.handle,
   Drv.Names.handle,
   Drv.Text.handle,
-  Drv.Order.handle
+  Drv.Order.handle,
+  Drv.Expr.handle
 ]
 
 def handle (fields : List String) : String :=
